@@ -35,35 +35,35 @@
 
 #[cfg(kani)]
 #[allow(dead_code)]
-mod verif_c10_cleanup {
+pub(in crate::structures::paging::mapper) mod verif_c10_cleanup {
     use super::*;
 
     // ---- architecture constants, written from the SDM, not taken from the crate
-    const P: u64 = 1;
-    const RW: u64 = 1 << 1;
-    const US: u64 = 1 << 2;
-    const PS: u64 = 1 << 7;
-    const ADDR: u64 = 0x000f_ffff_ffff_f000;
-    const ADDR_2M: u64 = 0x000f_ffff_ffe0_0000;
-    const ADDR_1G: u64 = 0x000f_ffff_c000_0000;
-    const SZ_4K: u64 = 1 << 12;
-    const SZ_2M: u64 = 1 << 21;
-    const SZ_1G: u64 = 1 << 30;
+    pub(in crate::structures::paging::mapper) const P: u64 = 1;
+    pub(in crate::structures::paging::mapper) const RW: u64 = 1 << 1;
+    pub(in crate::structures::paging::mapper) const US: u64 = 1 << 2;
+    pub(in crate::structures::paging::mapper) const PS: u64 = 1 << 7;
+    pub(in crate::structures::paging::mapper) const ADDR: u64 = 0x000f_ffff_ffff_f000;
+    pub(in crate::structures::paging::mapper) const ADDR_2M: u64 = 0x000f_ffff_ffe0_0000;
+    pub(in crate::structures::paging::mapper) const ADDR_1G: u64 = 0x000f_ffff_c000_0000;
+    pub(in crate::structures::paging::mapper) const SZ_4K: u64 = 1 << 12;
+    pub(in crate::structures::paging::mapper) const SZ_2M: u64 = 1 << 21;
+    pub(in crate::structures::paging::mapper) const SZ_1G: u64 = 1 << 30;
 
-    const NT: usize = 7;
-    const NONE: usize = 7;
+    pub(in crate::structures::paging::mapper) const NT: usize = 7;
+    pub(in crate::structures::paging::mapper) const NONE: usize = 7;
     /// frame addresses of the 7 pool tables. F[4] is 2 MiB aligned on purpose: scenario
     /// `huge_pages` maps a 2 MiB page onto the physical range that contains table 4.
-    const F: [u64; NT] = [0x10_0000, 0x10_1000, 0x10_2000, 0x10_3000, 0x20_0000, 0x10_5000, 0x10_6000];
-    const TBL: u64 = P | RW | US; // flags of an entry that points to a table
+    pub(in crate::structures::paging::mapper) const F: [u64; NT] = [0x10_0000, 0x10_1000, 0x10_2000, 0x10_3000, 0x20_0000, 0x10_5000, 0x10_6000];
+    pub(in crate::structures::paging::mapper) const TBL: u64 = P | RW | US; // flags of an entry that points to a table
 
-    fn entry_from(w: u64) -> PageTableEntry {
+    pub(in crate::structures::paging::mapper) fn entry_from(w: u64) -> PageTableEntry {
         unsafe { core::mem::transmute::<u64, PageTableEntry>(w) }
     }
-    fn raw(e: &PageTableEntry) -> u64 {
+    pub(in crate::structures::paging::mapper) fn raw(e: &PageTableEntry) -> u64 {
         unsafe { *(e as *const PageTableEntry as *const u64) }
     }
-    const fn tbl(words: &[(usize, u64)]) -> [u64; 512] {
+    pub(in crate::structures::paging::mapper) const fn tbl(words: &[(usize, u64)]) -> [u64; 512] {
         let mut a = [0u64; 512];
         let mut i = 0;
         while i < words.len() {
@@ -72,16 +72,16 @@ mod verif_c10_cleanup {
         }
         a
     }
-    fn table_from(a: [u64; 512]) -> PageTable {
+    pub(in crate::structures::paging::mapper) fn table_from(a: [u64; 512]) -> PageTable {
         unsafe { core::mem::transmute::<[u64; 512], PageTable>(a) }
     }
-    const EMPTY: [u64; 512] = tbl(&[]);
+    pub(in crate::structures::paging::mapper) const EMPTY: [u64; 512] = tbl(&[]);
 
     // ------------------------------------------------------------------ pool
 
     #[derive(Clone, Copy, Debug)]
-    struct Pool {
-        p: [*mut PageTable; NT],
+    pub(in crate::structures::paging::mapper) struct Pool {
+        pub p: [*mut PageTable; NT],
     }
     unsafe impl PageTableFrameMapping for Pool {
         fn frame_to_pointer(&self, frame: PhysFrame) -> *mut PageTable {
@@ -94,7 +94,7 @@ mod verif_c10_cleanup {
         }
     }
     /// index of the pool table whose frame address is `a`, NONE if `a` is not a page-table frame
-    fn lookup(a: u64) -> usize {
+    pub(in crate::structures::paging::mapper) fn lookup(a: u64) -> usize {
         if a == F[0] {
             0
         } else if a == F[1] {
@@ -114,7 +114,7 @@ mod verif_c10_cleanup {
         }
     }
     impl Pool {
-        fn rd(&self, k: usize, i: usize) -> u64 {
+        pub fn rd(&self, k: usize, i: usize) -> u64 {
             raw(unsafe { &(&*self.p[k])[i] })
         }
     }
@@ -144,29 +144,29 @@ mod verif_c10_cleanup {
 
     // ------------------------------------------------------------------ the oracle
 
-    const NOT_MAPPED: u8 = 0;
-    const MAPPED: u8 = 1;
-    const MALFORMED: u8 = 2;
+    pub(in crate::structures::paging::mapper) const NOT_MAPPED: u8 = 0;
+    pub(in crate::structures::paging::mapper) const MAPPED: u8 = 1;
+    pub(in crate::structures::paging::mapper) const MALFORMED: u8 = 2;
 
     #[derive(Clone, Copy, PartialEq, Eq)]
-    struct Walk {
-        kind: u8,
-        phys: u64,
-        size: u64,
-        leaf: u64, // the whole leaf word
-        pw: bool,  // every non-leaf entry on the walk has R/W
-        pu: bool,  // every non-leaf entry on the walk has U/S
+    pub(in crate::structures::paging::mapper) struct Walk {
+        pub kind: u8,
+        pub phys: u64,
+        pub size: u64,
+        pub leaf: u64, // the whole leaf word
+        pub pw: bool,  // every non-leaf entry on the walk has R/W
+        pub pu: bool,  // every non-leaf entry on the walk has U/S
     }
-    const NM: Walk = Walk { kind: NOT_MAPPED, phys: 0, size: 0, leaf: 0, pw: false, pu: false };
-    const BAD: Walk = Walk { kind: MALFORMED, phys: 0, size: 0, leaf: 0, pw: false, pu: false };
+    pub(in crate::structures::paging::mapper) const NM: Walk = Walk { kind: NOT_MAPPED, phys: 0, size: 0, leaf: 0, pw: false, pu: false };
+    pub(in crate::structures::paging::mapper) const BAD: Walk = Walk { kind: MALFORMED, phys: 0, size: 0, leaf: 0, pw: false, pu: false };
 
-    fn canonical(a: u64) -> bool {
+    pub(in crate::structures::paging::mapper) fn canonical(a: u64) -> bool {
         let top = a >> 47;
         top == 0 || top == 0x1_ffff
     }
 
     /// What an MMU with CR3 = frame of table 0 does with virtual address `v`.
-    fn hw_walk(pool: &Pool, v: u64) -> Walk {
+    pub(in crate::structures::paging::mapper) fn hw_walk(pool: &Pool, v: u64) -> Walk {
         let i4 = ((v >> 39) & 511) as usize;
         let i3 = ((v >> 30) & 511) as usize;
         let i2 = ((v >> 21) & 511) as usize;
@@ -216,25 +216,25 @@ mod verif_c10_cleanup {
 
     // ------------------------------------------------------------------ the deallocator
 
-    const LOGN: usize = 8;
+    pub(in crate::structures::paging::mapper) const LOGN: usize = 8;
     /// (parent table, slot) of every pool table in the pre-state; (NONE, 0) = not linked
-    type Parents = [(usize, usize); NT];
-    const NOP: (usize, usize) = (NONE, 0);
+    pub(in crate::structures::paging::mapper) type Parents = [(usize, usize); NT];
+    pub(in crate::structures::paging::mapper) const NOP: (usize, usize) = (NONE, 0);
 
-    struct Log {
-        pool: Pool,
-        parent: Parents,
-        n: usize,
-        freed: [u64; LOGN],
+    pub(in crate::structures::paging::mapper) struct Log {
+        pub pool: Pool,
+        pub parent: Parents,
+        pub n: usize,
+        pub freed: [u64; LOGN],
         /// the word in the parent slot at the moment of the call (u64::MAX: not a linked pool table)
-        parent_word: [u64; LOGN],
+        pub parent_word: [u64; LOGN],
         /// a slot number chosen by the solver (the same for every call) ...
-        probe: usize,
+        pub probe: usize,
         /// ... and the word the deallocated table held in that slot at the moment of the call: the
         /// table was entirely empty at that moment iff this is 0 for every choice of `probe`.
         /// (A 512-iteration scan here instead would cost 10 MB of counterexample trace per
         /// deallocation in every later reachability witness, see C10_NOTES.md.)
-        word_at_probe: [u64; LOGN],
+        pub word_at_probe: [u64; LOGN],
     }
     impl FrameDeallocator<Size4KiB> for Log {
         unsafe fn deallocate_frame(&mut self, frame: PhysFrame<Size4KiB>) {
@@ -252,10 +252,10 @@ mod verif_c10_cleanup {
             self.n += 1;
         }
     }
-    fn new_log(pool: &Pool, parent: Parents, probe: usize) -> Log {
+    pub(in crate::structures::paging::mapper) fn new_log(pool: &Pool, parent: Parents, probe: usize) -> Log {
         Log { pool: *pool, parent, n: 0, freed: [0; LOGN], parent_word: [0; LOGN], probe, word_at_probe: [0; LOGN] }
     }
-    fn times_freed(log: &Log, a: u64) -> usize {
+    pub(in crate::structures::paging::mapper) fn times_freed(log: &Log, a: u64) -> usize {
         let mut c = 0;
         let mut j = 0;
         while j < LOGN {
@@ -268,7 +268,7 @@ mod verif_c10_cleanup {
     }
     /// every deallocated frame is an allowed pool table (never table 0 = level 4, never a frame that
     /// is not a table of the hierarchy) and that table held 0 in the probe slot at that moment
-    fn only_allowed_empty(log: &Log, allowed: &[bool; NT]) -> bool {
+    pub(in crate::structures::paging::mapper) fn only_allowed_empty(log: &Log, allowed: &[bool; NT]) -> bool {
         let mut ok = log.n <= LOGN;
         let mut j = 0;
         while j < LOGN {
@@ -281,7 +281,7 @@ mod verif_c10_cleanup {
         ok
     }
     /// each frame at most once, and its parent slot was already 0 when it was handed back
-    fn once_and_unlinked_first(log: &Log) -> bool {
+    pub(in crate::structures::paging::mapper) fn once_and_unlinked_first(log: &Log) -> bool {
         let mut ok = true;
         let mut j = 0;
         while j < LOGN {
@@ -292,7 +292,7 @@ mod verif_c10_cleanup {
         }
         ok
     }
-    fn required_freed(log: &Log, required: &[bool; NT]) -> bool {
+    pub(in crate::structures::paging::mapper) fn required_freed(log: &Log, required: &[bool; NT]) -> bool {
         let mut ok = true;
         let mut k = 1;
         while k < NT {
@@ -302,7 +302,7 @@ mod verif_c10_cleanup {
         ok
     }
     /// the word slot (k, s) must hold after the call: 0 if it linked a table that was deallocated
-    fn dictated(log: &Log, parent: &Parents, k: usize, s: usize, pre: u64) -> u64 {
+    pub(in crate::structures::paging::mapper) fn dictated(log: &Log, parent: &Parents, k: usize, s: usize, pre: u64) -> u64 {
         let mut want = pre;
         let mut c = 1;
         while c < NT {
@@ -318,7 +318,7 @@ mod verif_c10_cleanup {
     /// a reachability check to every arithmetic / bounds check in them, CBMC emits one
     /// counterexample trace per reachable check, and the trace ends where the check is FIRST
     /// reached: reached here, the trace is a few kB; reached only after clean_up, it is 150 MB.
-    fn oracle_selftest(pool: &Pool) -> bool {
+    pub(in crate::structures::paging::mapper) fn oracle_selftest(pool: &Pool) -> bool {
         let parent: Parents = [NOP, (0, 0), (1, 0), NOP, NOP, NOP, NOP];
         let mut lg = new_log(pool, parent, 0);
         unsafe {
@@ -347,7 +347,7 @@ mod verif_c10_cleanup {
         ok
     }
 
-    fn pg(v: u64) -> Page<Size4KiB> {
+    pub(in crate::structures::paging::mapper) fn pg(v: u64) -> Page<Size4KiB> {
         Page::from_start_address(VirtAddr::new(v)).unwrap()
     }
 
